@@ -22,11 +22,11 @@ def sh(cmd, cwd=None, timeout=1800):
 
 PKGDIR = {"ugo_test": ".", "ugo": ".", "encoder_test": "encoder", "encoder": "encoder", "json_test": "stdlib/json", "json": "stdlib/json",
           "strings_test": "stdlib/strings", "strings": "stdlib/strings", "time_test": "stdlib/time", "time": "stdlib/time",
-          "fmt_test": "stdlib/fmt", "fmt": "stdlib/fmt", "parser_test": "parser", "parser": "parser", "main": "cmd/ugo"}
+          "fmt_test": "stdlib/fmt", "fmt": "stdlib/fmt", "parser_test": "parser", "parser": "parser", "main": "cmd/ugo", "importers_test": "importers", "importers": "importers", "registry_test": "registry", "registry": "registry"}
 
 
 def confirm(pid, x):
-    src = os.path.join(SRC, pid, x)
+    src = os.path.join(SRC if x in ("A", "B") else "/tmp/seed2/out", pid, x)
     out = os.path.join(SEEDED, "%s-%s" % (pid, x))
     wt = "/tmp/scratch/seed-%s-%s" % (pid, x)
     os.makedirs("/tmp/scratch", exist_ok=True)
@@ -35,7 +35,7 @@ def confirm(pid, x):
     if rc:
         print(o)
         return 2
-    meta = {"property": pid, "variant": x, "source": "independent sub-agent given only the property text and its own scratch worktree"}
+    meta = {"property": pid, "variant": x, "source": "independent sub-agent given only the property text and its own scratch worktree (round %d)" % (1 if x in ("A", "B") else 2)}
     try:
         head = sh("git rev-parse --short HEAD", cwd=wt)[1].strip()
         meta["confirmed_at_repo_head"] = head
